@@ -251,8 +251,8 @@ def q2(run, project):
         if isinstance(stmt, ast.Expr) and isinstance(stmt.value, ast.YieldFrom) and isinstance(stmt.value.value, ast.Call) \
                 and call_name(stmt.value.value) == "pretty" and norm(stmt.value.value.args[0]) == v:
             return "pretty"
-        if isinstance(stmt, ast.AugAssign) and isinstance(stmt.op, ast.Add) and norm(stmt.value) == f"{v}.value.to_bytes()":
-            return "buffer"
+        if isinstance(stmt, ast.AugAssign) and isinstance(stmt.op, ast.Add) and norm(stmt.value) in (f"{v}.value.to_bytes()", f"to_bytes({v})"):
+            return "buffer"   # (to_bytes(event) is event.value.to_bytes() for a list element: C02-B2)
         if isinstance(stmt, ast.Return) and stmt.value is not None and norm(stmt.value) == v:
             return "return"
         if isinstance(stmt, ast.Expr) and isinstance(stmt.value, ast.Yield) and isinstance(stmt.value.value, ast.Call) \
@@ -382,7 +382,7 @@ def q2(run, project):
         norm(rows[0].value.args[1]) == f"{parent}.path"
     bufname = norm(rows[0].value.args[2]) if rows and len(rows[0].value.args) == 4 else None
     augs = [s for s in walk_no_nested(ple) if isinstance(s, ast.AugAssign) and norm(s.target) == bufname]
-    run.ob("Q2", ok and len(augs) == 1 and norm(augs[0].value) == f"{var}.value.to_bytes()",
+    run.ob("Q2", ok and len(augs) == 1 and norm(augs[0].value) in (f"{var}.value.to_bytes()", f"to_bytes({var})"),
            "byte list: all element bytes are collected into the single row of the parent",
            "the folded row does not carry exactly the concatenated element bytes", module=mod, node=rows[0] if rows else ple,
            func=ple.name, construct="byte-list row")
@@ -539,7 +539,9 @@ def q4(run, project):
             val = "''" if st_ else f"f'{{{e}.value}}'"
             want = [("yield", f"format({e}.type, {e}.path, b''.join(binary_unmarshal(({e},))), {val})")]
             alt = [("yield", f"format({e}.type, {e}.path, b''.join(binary_unmarshal(({e},))), str({e}.value))")]
-            run.ob("Q4", st_ is not None and (fx == want or (not st_ and fx == alt)),
+            # (the binary front-end's unmarshal of the one-event list is to_bytes(event): C02-B3)
+            want2 = [("yield", f"format({e}.type, {e}.path, to_bytes({e}), {val})")]
+            run.ob("Q4", st_ is not None and (fx in (want, want2) or (not st_ and fx == alt)),
                    "pretty(): hex column is the binary re-encoding of exactly this event; value is its text form",
                    f"pretty() row construction changed: [{label}] gives {fx}", module=mod, node=pp.node or pr, func="pretty",
                    construct="pretty row" if len(fx) == 1 else "pretty yields")
